@@ -26,6 +26,24 @@ CHECKS = {
     "C08": ("exploration", "Hypothesis-generated declarations weighted to repeated/optional/referenced fields x valid, truncated, corrupted, random inputs; two-directional differential (values, end offset, accept/reject) against the reference parser",
             "Every input is parsed by bisturi and by the reference interpreter of the declaration; list lengths, element values, Nones, nested packets, the position where parsing continues and accept/reject must agree in both directions.",
             "Trusts bv/ir.py; run-time selected fields restricted to option-independent ones.", "DESIGN.md section 5 C08"),
+    "C03": ("exploration", "Hypothesis-generated declarations rendered under the generic loop and under k code-generation option combinations; differential testing of unpack/pack outcomes over generated inputs and values",
+            "Each declaration is defined once with code generation off (reference) and again under 6 (quick) / all 16 (thorough) combinations of the four options plus a per-class mixed one; unpack results, end offsets, packed bytes and PacketError verdicts must be identical for valid, truncated, corrupted, random inputs and for consistent, out-of-range and wrong-typed values.",
+            "The generic interpretation is the reference (the property's wording). Data(n) values always have n bytes. Error locations are C12's subject.", "DESIGN.md section 5 C03"),
+    "C10": ("exploration", "Hypothesis-generated position-heavy declarations; parse differential and pack()==reference encoding against a model that implements 'least advance' literally",
+            "Declarations where most fields carry at/shift/aligned with all three reference points and constant/field/callable targets, class align, per-element alignment, nested behind variable-length prefixes; parsed values/end must equal the reference parse and pack() must equal the reference encoding with '.' fill.",
+            "Trusts bv/ir.py move/alignment rules (written from the property text); positions before index 0 or far beyond the input are out of scope.", "DESIGN.md section 5 C10"),
+    "C12": ("exploration", "Hypothesis-generated declarations x failing inputs and failing pack values at every depth; PacketError type/phase/stack compared with the reference model's predicted failing field and offset",
+            "Every truncation point, corrupted control bytes, random strings, out-of-range / wrong-typed leaves, colliding positions and Auto/AutoLength failures; asserts exception type, phase flag, innermost (field or run label, class, begin offset), one outer entry per enclosing field, str(e), silent=True, ValueError for non-bytes.",
+            "Outer entries' offsets not asserted; for descriptor hook failures the offset may be the packet start (the field has no position yet). Trusts bv/ir.py for which read fails first.", "DESIGN.md section 5 C12"),
+    "C14": ("exploration", "metamorphic property-based testing: prefix/suffix/offset relocation of generated inputs over generated relocatable declarations",
+            "unpack(pre+raw, len(pre)), unpack(raw+post) and unpack(pre+raw+post, len(pre)) are compared with unpack(raw) (values, end offset, every reported error offset shifted by len(pre)); suffix comparisons are skipped exactly when the reference trace shows a read-to-end field or a regex match touching the end of raw.",
+            "Only the skip rule uses the reference model; relocatable profile excludes start-of-data references and raw-inspecting callbacks as the property does.", "DESIGN.md section 5 C14"),
+    "C19": ("exploration", "Hypothesis-generated declarations with user defaults at every level x keyword-override subsets; attribute tree vs reference defaults rule, aliasing and mutation-leak probes",
+            "Cls() and Cls(**some) are read back field by field and compared with the reference defaults plus exactly the overrides; pack() must equal the reference encoding; object identity of nested lists/packets must be disjoint between instances and in-place mutation of one instance must not leak into later ones.",
+            "Trusts bv/ir.py default_of (from the property text).", "DESIGN.md section 5 C19"),
+    "C20": ("exploration", "Hypothesis-generated declarations weighted to positioning/Em/align x packet pairs (equal, one leaf changed at any depth, look-alike class, non-packets); ==/!=/repr totality and agreement with a deep structural compare",
+            "Pairs from two parses, two constructions, parse vs construction, single-leaf changes in lists/nested packets, a twin class with identical fields, and None/0/b''/list/str; == must equal (same class and equal value trees), != its negation, nothing may raise.",
+            "Ground truth is the harness' own deep comparison of attribute trees.", "DESIGN.md section 5 C20"),
 }
 
 NOT_YET = {}
